@@ -276,9 +276,12 @@ def _t7_solutions():
     return _T7
 
 
-def craft_short_tc(apid, seq, total, body: bytes, neighbours: bytes, patch: bool):
-    """A buffer starting with a TC primary header that declares ``total`` (7..12) octets."""
-    buf = bytearray(RC.sp_header(0, 1, 1, apid, 3, seq, total - 7))
+def craft_short_tc(apid, seq, total, body: bytes, neighbours: bytes, patch: bool, bits=(0, 1, 1, 3)):
+    """A buffer starting with a TC primary header that declares ``total`` (7..12) octets.  ``bits`` = (version, type, secondary-header
+    flag, sequence flags) of the primary header: the rejection must not depend on any of them."""
+    if total <= 8:
+        bits = (0, 1, 1, 3)  # the self-referential solutions below are computed for the standard TC bits
+    buf = bytearray(RC.sp_header(bits[0], bits[1], bits[2], apid, bits[3], seq, total - 7))
     buf += bytes([0x20 | (body[0] & 0x0F)]) + body[1:]
     buf = buf[: max(total, 6)]
     while len(buf) < total:
@@ -314,6 +317,7 @@ def st_short():
             "body": st.binary(min_size=8, max_size=8).map(bytes.hex),
             "neighbours": st.one_of(st.just(""), st.binary(max_size=16).map(bytes.hex), st.just(RP.pus_tc(1, 1, 17, 1, 0, 15, b"").hex())),
             "patch": st.sampled_from([True, True, True, False]),
+            "bits": st.one_of(st.just([0, 1, 1, 3]), st.tuples(st.sampled_from([0, 0, 1, 7]), st.integers(0, 1), st.integers(0, 1), st.integers(0, 3)).map(list)),
         }
     )
 
@@ -323,7 +327,7 @@ def check_short(c):
     from ..excs import allowed
 
     devs = []
-    buf = craft_short_tc(c["apid"], c["seq"], c["total"], bytes.fromhex(c["body"]), bytes.fromhex(c["neighbours"]), c["patch"])
+    buf = craft_short_tc(c["apid"], c["seq"], c["total"], bytes.fromhex(c["body"]), bytes.fromhex(c["neighbours"]), c["patch"], tuple(c.get("bits", (0, 1, 1, 3))))
     declared = int.from_bytes(buf[4:6], "big") + 7
     if declared >= 13:
         raise AssertionError("generator bug: declared total not short")
@@ -367,8 +371,9 @@ CLAUSES = [
         strategy=st_short,
         check=check_short,
         nontrivial=lambda c: c["patch"],
-        classify=lambda c: [f"declared {c['total']}", "crc patched" if c["patch"] else "crc random", "neighbours" if c["neighbours"] else "exact buffer"],
-        required=[f"declared {t}" for t in range(7, 13)] + ["crc patched", "neighbours", "exact buffer"],
+        classify=lambda c: [f"declared {c['total']}", "crc patched" if c["patch"] else "crc random", "neighbours" if c["neighbours"] else "exact buffer"]
+        + (["secondary-header flag cleared"] if c.get("bits", [0, 1, 1, 3])[2] == 0 and c["total"] >= 9 else []) + (["type bit cleared"] if c.get("bits", [0, 1, 1, 3])[1] == 0 and c["total"] >= 9 else []),
+        required=[f"declared {t}" for t in range(7, 13)] + ["crc patched", "neighbours", "exact buffer", "secondary-header flag cleared", "type bit cleared"],
         n={"quick": 800, "thorough": 6000},
     ),
 ]
